@@ -211,7 +211,7 @@ Lemma restore_keeps cL se saved l x :
 Proof.
   intros Hin S I Cn Nk. unfold restore.
   exists (mkLease (l_cid l) SAllocated (l_mac l) (l_ip l) (l_offer l) (l_xid l)
-            (sess_captured se (l_mac l) && match l_ip l with Some y => n_contains cL true y | None => false end) (l_exp l)).
+            (sess_captured se (l_mac l) && match l_ip l with Some y => n_contains cL true y && negb (y =? n_lan cL true) && negb (y =? n_bcast cL true) | None => false end) (l_exp l)).
   split; [|simpl; auto].
   apply in_map_iff. exists l. split; auto. apply filter_In. split; auto.
   rewrite S, I, Cn. simpl. apply negb_true_iff. apply N.eqb_neq. exact Nk.
